@@ -15,8 +15,11 @@ import omen_level as ol
 
 ID = "C11"
 TRUSTED = [
-    "files are modelled as line lists (level, string): str(int)/int(), TAB/LF framing and the codecs are exercised by the "
-    "correspondence (real writer -> real readers, utf-8 / latin-1 / cp1251), not proved",
+    "files are modelled as line lists (level, string) plus the framing condition under which a reader obtains them "
+    "(no TAB / line end of THAT reader inside a string, codec = the writer's); str(int)/int() and the codecs themselves are "
+    "exercised by the correspondence (real writer -> real readers, utf-8 / latin-1 / cp1251), not proved",
+    "the line ends of the guesser's reader are probed from the running interpreter (str.splitlines), check_valid's rejected "
+    "characters by calling it; the way OmenScorer opens its files is read from the source by ast (harness/consts/omen_level.py)",
     "levels produced by smoothing (floor(-ln(..))) are taken as given",
     "guesser level of a string = the target level at which the real MarkovCracker emits it (levels enumerated completely "
     "under a size/time cap; undecided strings are counted, not guessed)",
@@ -25,6 +28,10 @@ ASSUMES = [
     "wf_ttab: keys of the trainer's grammar are distinct, all of length ngram-1, letters distinct per key, "
     "len(ln_lookup) = max_length, min_length = ngram >= 2 (checked on every generated table)",
     "levels_le 10: every level is within 0..10 (smoothing clamps; checked on every generated table)",
+    "chars_avoid: no character of the tables is TAB or a line end of the reader; follows from check_valid when the side "
+    "conditions C11_source_trainer_rejects_linebreaks / C11_source_scorer_line_ends_rejected hold",
+    "decoded_ok: the scorer opens IP.level / CP.level with the ruleset's encoding (side condition "
+    "C11_source_scorer_uses_ruleset_encoding)",
 ]
 
 
